@@ -77,6 +77,9 @@ class Ctx:
         cmd = ["go", "build", "-tags", "verif", "-o", out]
         if race:
             cmd.insert(2, "-race")
+        if os.environ.get("VERIF_COVER"):
+            # opt-in measurement of the library code the checks execute (GOCOVERDIR = $VERIF_COVER)
+            cmd[2:2] = ["-cover", "-coverpkg=github.com/trustbloc/sidetree-go/..."]
         cmd.append(".")
         r = sh(cmd, cwd=cwd, env=goenv(), stdout=subprocess.PIPE, stderr=subprocess.STDOUT, text=True)
         if r.returncode != 0:
